@@ -135,6 +135,10 @@ def trueValue (f : Fn) (n : Bool) (c : Nat) (e : Int) : Option (Bool × Sci) :=
       match Encl.log (c : Rat) e with    -- 1 + x = x (1 + 1/x), 1/x < 1e-40 relative
       | some l => some (false, ⟨⟨l.lo, l.hi + pow10 (-38)⟩, 0⟩)
       | none => none
+    else if e + (ndigits c : Int) < -12 then
+      -- |x| < 1e-12: degree-5 Taylor enclosure (relative width < 1e-59)
+      let l := log1pSmall x
+      if l.lo > 0 then some (false, ⟨l, 0⟩) else if l.hi < 0 then some (true, ⟨l.neg, 0⟩) else none
     else
       match Encl.log (1 + x) 0 with
       | none => none
